@@ -5,7 +5,7 @@ cd /verif || exit 2
 for d in seeded/*/; do
   id=$(basename "$d"); prop=${id%%-*}
   [ -n "${1:-}" ] && [[ "$id" != $1* ]] && continue
-  out=$(tools/try_seeded.sh "$d/patch.diff" "$prop" "${SECS:-25}" 2>&1)
+  out=$(tools/try_seeded.sh "/verif/${d}patch.diff" "$prop" "${SECS:-25}" 2>&1)
   if echo "$out" | grep -q "does not apply"; then echo "$id NOAPPLY"; continue; fi
   if echo "$out" | grep -q "VIOLATION"; then echo "$id CAUGHT $(echo "$out" | grep -m1 '^ *[0-9]* violation' | sed 's/^ *[0-9]* violation: //' | cut -c1-90)"; else echo "$id MISSED"; fi
 done
